@@ -848,6 +848,10 @@ func (fr *Frame) trySpecBool(st *State, c *Clause, b map[string]*SVal) (g *Term,
 	return fr.evalSpecBool(st, c.Expr, b, fr.entry), ""
 }
 
+func (fr *Frame) trySpecBoolB(st *State, c *Clause, b map[string]*SVal) (g *Term, why string) {
+	return fr.trySpecBool(st, c, b)
+}
+
 func (fr *Frame) checkInvs(st *State, lc *loopCtx, phase string, node ast.Node) {
 	if phase == "entry" {
 		// helper invariants that no longer resolve are dropped (reported as a note); the obligations they
